@@ -51,7 +51,7 @@ def gen_case(rng, op):
                 cur = cur[:k] + (rng.randrange(cur[k] + 1, min(4294967295, cur[k] + 1 + (1 << rng.choice([1, 7, 14, 28]))) + 1),)
         names.append(cur)
     kinds = [k for k in M.KINDS if k != "Null"]
-    return {"op": op, "base": base, "vbs": [(o, M.gen_value(rng, kinds)) for o in names]}
+    return {"op": op, "base": base, "vbs": [(o, M.gen_value(rng, kinds)) for o in names], "cap": rng.choice([1, 2, 3, 7, 50, 50])}
 
 
 def worker(job):
@@ -70,14 +70,22 @@ def worker(job):
             c = state.get("case")
             if c is None:
                 return agent.reply(req, [])
-            if state.get("served"):
-                # follow-up request of a walk: end it
-                oid = (req.oids() or [(1, 3)])[0]
-                if req.version == 0:
-                    return agent.reply(req, [B.enc_varbind(oid, B.enc_null())], error_status=2, error_index=1)
-                return agent.reply(req, [B.enc_varbind(oid, M.EXC_TLV["EndOfMibView"])])
+            page = c["vbs"]
+            if c["op"] in ("getnext", "getbulk"):
+                # a size-limited agent: each response carries the next 1 (GetNext) or at most `cap` (GetBulk, RFC 3416
+                # 4.2.3 allows fewer than max-repetitions) entries after the requested name
+                cur = (req.oids() or [(1, 3)])[0]
+                rest = [(o, v) for o, v in c["vbs"] if o > cur]
+                n = 1 if req.pdu["tag"] == B.PDU_GETNEXT else max(1, min(c.get("cap", 50), req.pdu["b"]))
+                page = rest[:n]
+                if not page:
+                    if req.version == 0:
+                        return agent.reply(req, [B.enc_varbind(cur, B.enc_null())], error_status=2, error_index=1)
+                    return agent.reply(req, [B.enc_varbind(cur, M.EXC_TLV["EndOfMibView"])])
+            elif state.get("served"):
+                return agent.reply(req, [])
             state["served"] = True
-            vbs = [B.enc_varbind(o, v["tlv"], form=state["rng"].choice([None, None, 2])) for o, v in c["vbs"]]
+            vbs = [B.enc_varbind(o, v["tlv"], form=state["rng"].choice([None, None, 2])) for o, v in page]
             return agent.reply(req, vbs, vb_form=state["rng"].choice([None, 2, 3]), pdu_form=state["rng"].choice([None, 2]))
         return agent.discovery_or(req, f)
 
